@@ -40,6 +40,8 @@ def _filler(rng, lines, comment, n, indent):
 def render_py(rng, c, lines):
     """Appends the class; returns (header line, public methods, lines of code)."""
     _filler(rng, lines, "#", c["filler"], "")
+    for _ in range(rng.choice([0, 0, 1, 2])):
+        lines.append(rng.choice(["@decorated", "@register('x')"]))   # decorators: not the header, not lines of the class
     header = len(lines) + 1
     lines.append(f"class {c['name']}:")
     loc = 1
